@@ -149,6 +149,7 @@ type clientCfg struct {
 	Listen    string   `json:"listen"`
 	Devices   []devCfg `json:"devices"`
 	TimeoutMs int      `json:"timeout_ms"`
+	ViaNew    bool     `json:"-"` // build the devices with uhppote.NewDevice instead of struct literals
 }
 
 type devCfg struct {
@@ -189,6 +190,10 @@ func (c clientCfg) build(wrap func(uhppote.Driver) uhppote.Driver) (uhppote.IUHP
 			if z, err := time.LoadLocation(d.TZ); err == nil {
 				tz = z
 			}
+		}
+		if c.ViaNew {
+			devices = append(devices, uhppote.NewDevice(d.Name, d.Serial, a, d.Proto, []string{"a", "b", "c", "d"}, tz))
+			continue
 		}
 		devices = append(devices, uhppote.Device{Name: d.Name, DeviceID: d.Serial, Address: a, Doors: []string{"a", "b", "c", "d"}, TimeZone: tz, Protocol: d.Proto})
 	}
